@@ -312,6 +312,13 @@ def classifiers_and_streams(ctx):
            ("SklearnClassifier[GaussianNB]", lambda c, ml, s: SklearnClassifier(GaussianNB(), classes=c, missing_label=ml, random_state=s)),
            ("SklearnClassifier[LogisticRegression]", lambda c, ml, s: SklearnClassifier(LogisticRegression(), classes=c, missing_label=ml, random_state=s)),
            ("SlidingWindowClassifier", lambda c, ml, s: SlidingWindowClassifier(ParzenWindowClassifier(classes=c, missing_label=ml, random_state=s), classes=c, missing_label=ml, random_state=s))]
+    # bounded windows fed by partial_fit in small chunks: which samples the window keeps depends on what counts as labeled
+    mks += [("SlidingWindowClassifier[only_labeled,window=4,partial_fit]",
+             lambda c, ml, s: SlidingWindowClassifier(ParzenWindowClassifier(classes=c, missing_label=ml, random_state=s), classes=c, missing_label=ml, window_size=4, only_labeled=True, random_state=s)),
+            ("SlidingWindowClassifier[window=5,partial_fit]",
+             lambda c, ml, s: SlidingWindowClassifier(ParzenWindowClassifier(classes=c, missing_label=ml, random_state=s), classes=c, missing_label=ml, window_size=5, random_state=s)),
+            ("SlidingWindowClassifier[GaussianNB,only_labeled,window=6,partial_fit]",
+             lambda c, ml, s: SlidingWindowClassifier(SklearnClassifier(GaussianNB(), classes=c, missing_label=ml, random_state=s), classes=c, missing_label=ml, window_size=6, only_labeled=True, random_state=s))]
     for name, mk in mks:
         for h in range(4 if ctx.is_quick else 30):
             n = int(rng.integers(6, 12))
@@ -330,7 +337,12 @@ def classifiers_and_streams(ctx):
                 ename, classes, ml, dt = enc
                 y = encode(codes, enc, K)
                 try:
-                    m = mk(classes, ml, seed).fit(X, y)
+                    if "partial_fit" in name:
+                        m = mk(classes, ml, seed)
+                        for a in range(0, n, 1 + h % 3):
+                            m.partial_fit(X[a:a + 1 + h % 3], y[a:a + 1 + h % 3])
+                    else:
+                        m = mk(classes, ml, seed).fit(X, y)
                     P = np.asarray(m.predict_proba(Xq), dtype=float)
                     pred = [classes.index(v.item() if hasattr(v, "item") else v) for v in m.predict(Xq)]
                     outs.append((ename, P, pred))
